@@ -173,6 +173,7 @@ FamCallPre == {"lit", "var", "bin", "call", "badcall", "let", "exprstmt"}
 FamFuncDef == {"lit", "var", "bin", "func", "select", "let"}
 FamModDef == {"lit", "var", "bin", "module", "dot", "letuse"}
 FamFuncUse == {"lit", "var", "bin", "func", "select", "list", "letuse", "exprstmt"}
+FamFuncBody == {"lit", "var", "bin", "func", "letuse"}       \* a fault planted in a function body, met when it is called
 FamCast == {"lit", "var", "bin", "cast", "let"}
 FamCastDot == {"lit", "var", "cast", "dot", "select", "let"}
 FamDotUse == {"lit", "var", "bin", "dot", "dotcall", "dotcopy", "let", "exprstmt"}
